@@ -143,7 +143,9 @@ impl SendWindow {
     /// the window is considered also full at level = 1 if the receiving window does not have
     /// a pending ACK.
     fn is_full(&self, recv_window: &RecvWindow) -> bool {
-        self.level == 0 || self.level == 1 && recv_window.ack_level == 0
+        // NOTE: `pending_ack()` rather than `ack_level`, as the last slot is only good for a
+        // segment which *does* carry an ACK, or else both peers might end up with closed windows
+        self.level == 0 || self.level == 1 && recv_window.pending_ack().is_none()
     }
 
     /// Return the next sequence to be used when sending a BTP segment.
@@ -524,7 +526,13 @@ impl Session {
             // (The responder side has no matching adjustment: our Handshake
             // *Request* carries no sequence number, so the responder correctly
             // expects our first data segment at seq 0.)
+            //
+            // The Handshake Response also occupies one slot of our receive window and
+            // has to be acknowledged like any other segment.
             self.recv_window.ack_seq = 0;
+            self.recv_window.level = window_size - 1;
+            self.recv_window.ack_level = 1;
+            self.recv_window.received_at = Instant::now();
         }
     }
 
@@ -557,7 +565,9 @@ impl Session {
                 || self
                     .recv_window
                     .received_at
-                    .checked_add(Duration::from_secs(ack_timeout_secs as _))
+                    // As per the Matter Core spec, the send-ack timer must be shorter than
+                    // half of the ACK timeout, or else our ACK arrives after the peer gave up
+                    .checked_add(Duration::from_millis(ack_timeout_secs as u64 * 1000 / 3))
                     .map(|expires| expires <= now)
                     .unwrap_or(false))
     }
